@@ -11,7 +11,10 @@ Open Scope Z_scope.
 
 Definition DOLLAR := 36.  Definition DOT := 46.  Definition SP := 32.
 
-Definition is_ws (c : Z) : bool := (c =? 32) || ((9 <=? c) && (c <=? 13)).
+(** Python's \s on str: the ASCII blanks, the information separators, NEL, NBSP and the Unicode spaces *)
+Definition is_ws (c : Z) : bool :=
+  (c =? 32) || ((9 <=? c) && (c <=? 13)) || ((28 <=? c) && (c <=? 31)) || (c =? 133) || (c =? 160) || (c =? 5760) ||
+  ((8192 <=? c) && (c <=? 8202)) || (c =? 8232) || (c =? 8233) || (c =? 8239) || (c =? 8287) || (c =? 12288).
 (** SIMPLE_NAME: anything but dot, dollar, whitespace and the punctuation ! ^ : , ; % ( ) - + @ # { } [ ] & < > / | ? and both quote characters *)
 Definition name_char (c : Z) : bool :=
   negb (is_ws c || existsb (Z.eqb c) [46;36;33;94;58;44;59;37;40;41;45;43;64;35;123;125;91;93;38;60;62;47;124;63;34;39]).
